@@ -946,23 +946,25 @@ def replay(ctx, case):
                 return None
             if t in ("-", "e"):
                 return b""
-            try:
-                return int(t)
-            except ValueError:
-                return bytes.fromhex(t)
+            return int(t)
+
+        def tb(t):
+            return b"" if t in ("-", "e") else bytes.fromhex(t)
+
+        BYTES_AT = {"dsc": 1, "secAccess": 1, "rmba": 0, "iocbi": 1, "routine": 1, "transferData": 1, "transferExit": 0, "dtcListB": 1}
 
         try:
             if toks[0] == "conv":
-                args = (int(toks[2]), tok(toks[3]) or b"")
+                args = (int(toks[2]), tb(toks[3]))
             else:
                 form, a = toks[2], toks[3:]
                 if form == "rdbi":
-                    args = ([int(x) for x in a[0].split(",")] if a[0] != "-" else [], [tok(x) for x in a[1].split(",")] if a[1] != "-" else [])
+                    args = ([int(x) for x in a[0].split(",")] if a[0] != "-" else [], [tb(x) for x in a[1].split(",")] if a[1] != "-" else [])
                 elif form == "dtcListD":
                     args = (int(a[0]), {int(k): int(v) for k, v in (x.split(":") for x in a[1].split(","))} if a[1] != "-" else {})
                 elif form in ("dtcExtT", "dtcExtB"):
-                    d = {int(k): tok(v) for k, v in (x.split(":") for x in a[-1].split(","))} if a[-1] != "-" else {}
-                    args = ((int(a[0]), int(a[1])), d) if form == "dtcExtT" else (tok(a[0]), d)
+                    d = {int(k): tb(v) for k, v in (x.split(":") for x in a[-1].split(","))} if a[-1] != "-" else {}
+                    args = ((int(a[0]), int(a[1])), d) if form == "dtcExtT" else (tb(a[0]), d)
                 elif form == "neg":
                     from gallia.services.uds.core.constants import UDSErrorCodes
                     args = (int(a[0]), UDSErrorCodes(int(a[1])))
@@ -970,7 +972,7 @@ def replay(ctx, case):
                     from gallia.services.uds.core.constants import DTCFormatIdentifier
                     args = (int(a[0]), DTCFormatIdentifier(int(a[1])), int(a[2]))
                 else:
-                    args = tuple(tok(x) for x in a)
+                    args = tuple(tb(x) if BYTES_AT.get(form) == i else tok(x) for i, x in enumerate(a))
             iv = _ctor_eval(cls, args, False)
         except Exception as e:  # noqa: BLE001
             iv = "none"
